@@ -499,12 +499,12 @@ func captured(c *engine.Ctx, evals *int64) {
 	kb, _ := hex.DecodeString(kh)
 	kt := keytab.New()
 	if err := kt.Unmarshal(kb); err != nil {
-		engine.Fatal("sample keytab: %v", err)
+		engine.FailValid("keytab.Unmarshal(sample keytab)", err)
 	}
 	pn, _ := types.ParseSPNString("sysHTTP")
 	key, _, err := kt.GetEncryptionKey(pn, "TEST.GOKRB5", 2, 18)
 	if err != nil {
-		engine.Fatal("sample key: %v", err)
+		engine.FailValid("Keytab.GetEncryptionKey(sample key)", err)
 	}
 	*evals++
 	r := process(pb, 18, key.KeyValue)
@@ -522,7 +522,7 @@ func throughTicket(c *engine.Ctx, ms []rpac.ValidationInfo, evals *int64) {
 	w := apworld.NewWorld(c.Seed)
 	kt := keytab.New()
 	if err := kt.Unmarshal(w.Keytab); err != nil {
-		engine.Fatal("model keytab: %v", err)
+		engine.FailValid("keytab.Unmarshal(model keytab)", err)
 	}
 	vclock.Virtual(apworld.T0)
 	for _, et := range []int32{rcrypto.AES128, rcrypto.AES256, rcrypto.A128S2, rcrypto.A256S2, rcrypto.RC4} {
